@@ -245,13 +245,27 @@ func runControl(w *sim.World, s *Session, segs []int) (*outcome, error) {
 }
 
 func runTransfer(w *sim.World, s *Session, segs []int) (*outcome, error) {
-	c := w.Dial("")
-	if _, err := c.Login(sim.LoginOpts{Login: "admin", Password: "admin", Name: "xfer", Old: true}); err != nil {
-		return setupFailed(fmt.Errorf("transfer session login: %w", err)), nil
+	// the helper connection is not the object of the experiment: on a loaded machine its login or request may time
+	// out, so it is tried up to three times (a persistent failure is still reported)
+	var c *sim.Client
+	var rep sim.Tx
+	var err error
+	for attempt := 0; attempt < 3; attempt++ {
+		c = w.Dial("")
+		if _, err = c.Login(sim.LoginOpts{Login: "admin", Password: "admin", Name: "xfer", Old: true}); err != nil {
+			err = fmt.Errorf("transfer session login: %w", err)
+			c.Close()
+			continue
+		}
+		if rep, err = s.Request(c); err != nil {
+			err = fmt.Errorf("transfer request: %w", err)
+			c.Close()
+			continue
+		}
+		break
 	}
-	rep, err := s.Request(c)
 	if err != nil {
-		return setupFailed(fmt.Errorf("transfer request: %w", err)), nil
+		return setupFailed(err), nil
 	}
 	ref, ok := rep.Get(sim.FRefNum)
 	if !ok || rep.Err != 0 || len(ref) != 4 {
